@@ -14,7 +14,8 @@ TASK: make a change to murex's non-test source that BREAKS this property while
  (a) still compiling (go build ./...),
  (b) still passing the project's existing tests (at least: go test -vet=off -count=1 for every package you touched plus ./lang/... and any builtins package that exercises the code; none of the existing *_test.go files may be edited), and
  (c) needing something SPECIFIC to manifest — a particular interleaving, a fault at a particular point, a multi-step sequence of operations, an unusual input or boundary value, or two cooperating sites that each look fine alone — NOT something that ordinary everyday use would expose at once. It should look like a plausible mistake or an over-eager optimisation/refactor a maintainer could make, not sabotage.
-Also write a DEMONSTRATION: a Go test file (placed in the worktree, new file) or a small script/program that FAILS with your change and PASSES without it.
+${2:+A previous exercise already covered this idea, so pick a DIFFERENT mechanism, code area and trigger: $2
+}Also write a DEMONSTRATION: a Go test file (placed in the worktree, new file) or a small script/program that FAILS with your change and PASSES without it.
 
 Environment: no network. Before any go command: export GOFLAGS=-mod=mod GOPROXY=off (do not set GOTOOLCHAIN or GOSUMDB). Build the shell with: go build -o /tmp/seed-$P-out/murex . ; run code with: /tmp/seed-$P-out/murex -c '<murex code>'. In-process test helper: github.com/lmorg/murex/test (test.RunMurexTests). Use default build tags. Keep go test invocations scoped to packages (the full suite takes ~10 min; you may run it once at the end: go test -vet=off -count=1 ./... ).
 
